@@ -1,6 +1,7 @@
 (* I/O wrapper around the extracted model of C20 (no logic of its own beyond parsing and printing).
    Same output format as the "R " lines of harness/src/bin/c20.rs:
-     p <iface|-> <member|-> <typ> <serial> <sender|-> <reply serial|-> <pre: stored id hex | none> <draw hex> <secs>
+     p <iface|-> <member|-> <typ> <serial> <sender|-> <reply serial|-> <flags> <destination|-> <body string|-> <pre: stored id hex | none> <draw hex> <secs>
+     n <draw> <draw> <draw> <secs>             first call with the disk full (write of the temporary file fails), then two with space
      u <12 bytes hex> <12 bytes hex> <secs>
      g <stored id hex> <draw hex> <secs>       GetMachineId twice on a file system that already holds the id
    The stored id before the call, the draw and the clock are the environment the implementation ran in
@@ -45,56 +46,65 @@ let show_written = function [] -> "-" | l -> String.concat "|" (List.map show_re
 let empty_fs : fs = fun _ -> None
 let show_file (f : fs) = match f machine_id_path with Some b -> hex_of_list b | None -> "none"
 
-let make_msg iface member typ serial sender rs =
+let make_msg ?(flags = 0) ?(dest = "-") ?(body = "-") iface member typ serial sender rs =
   { m_typ = (match typ with "c" -> MCall | "s" -> MSignal | "r" -> MReply | "i" -> MInvalid | _ -> MError);
     m_dh = { dh_interface = opt_of_hex iface; dh_member = opt_of_hex member;
-             dh_object = Some (list_of_hex "2f78"); dh_destination = None;
+             dh_object = Some (list_of_hex "2f78"); dh_destination = opt_of_hex dest;
              dh_serial = (if serial = 0 then None else Some (n_of_int serial)); dh_sender = opt_of_hex sender;
-             dh_signature = None; dh_error_name = None;
+             dh_signature = (if body = "-" then None else Some (list_of_hex "73")); dh_error_name = None;
              dh_response_serial = (if rs = "-" then None else Some (n_of_int (int_of_string rs))); dh_num_fds = None };
-    m_flags = N0; m_body = [] }
+    m_flags = n_of_int flags; m_body = (if body = "-" then [] else [ list_of_hex body ]) }
 
-let handled_str = function
-  | Ok ((h, _), _) -> if h then "true" else "false"
+let handled_str (r, _) = match r with
+  | Ok (h, _) -> if h then "true" else "false"
   | Err -> "err"
   | _ -> "panic"
+let written_of (r, _) = match r with Ok (_, w) -> show_written w | _ -> "-"
 
 let peer_iface = "6f72672e667265656465736b746f702e444275732e50656572"
 let get_id = "4765744d616368696e654964"
+
+(* file operations succeed unless the line says otherwise *)
+let env ?(write = WriteDone) secs draw =
+  { e_now = n_of_int secs; e_rand = list_of_hex draw; e_tmp_tag = list_of_hex "312e30";
+    e_write = write; e_link = LinkDone; e_remove_ok = true }
+
+let get_id_msg () = make_msg peer_iface get_id "c" 77 "3a312e39" "-"
 
 let () =
   try
     while true do
       let line = input_line stdin in
       match String.split_on_char ' ' line with
-      | [ "p"; iface; member; typ; serial; sender; rs; pre; draw; secs ] ->
-          let m = make_msg iface member typ (int_of_string serial) sender rs in
+      | [ "p"; iface; member; typ; serial; sender; rs; flags; dest; body; pre; draw; secs ] ->
+          let m = make_msg ~flags:(int_of_string flags) ~dest ~body iface member typ (int_of_string serial) sender rs in
           let f0 = if pre = "none" then empty_fs else fs_write machine_id_path (list_of_hex pre) empty_fs in
-          let e = { e_now = n_of_int (int_of_string secs); e_rand = list_of_hex draw; e_write_ok = true } in
-          let r = handle_peer_message ascii_only e f0 m in
-          let written, post = match r with Ok ((_, w), f1) -> (show_written w, show_file f1) | _ -> ("-", show_file f0) in
-          Printf.printf "handled=%s filter=%b written=%s pre=%s post=%s\n" (handled_str r) (filter_peer m.m_dh) written pre post
+          let r = handle_peer_message ascii_only (env (int_of_string secs) draw) f0 m in
+          Printf.printf "handled=%s filter=%b written=%s pre=%s post=%s\n" (handled_str r) (filter_peer m.m_dh)
+            (written_of r) pre (show_file (snd r))
       | [ "u"; d1; d2; secs ] ->
-          let m = make_msg peer_iface get_id "c" 77 "3a312e39" "-" in
-          let e1 = { e_now = n_of_int (int_of_string secs); e_rand = list_of_hex d1; e_write_ok = true } in
+          let m = get_id_msg () in
           (* the second call runs with another draw and a later clock: neither may matter *)
-          let e2 = { e_now = n_of_int (int_of_string secs + 1000); e_rand = list_of_hex d2; e_write_ok = true } in
-          let r1 = handle_peer_message ascii_only e1 empty_fs m in
-          let w1, f1 = match r1 with Ok ((_, w), f) -> (show_written w, f) | _ -> ("-", empty_fs) in
-          let r2 = handle_peer_message ascii_only e2 f1 m in
-          let w2, f2 = match r2 with Ok ((_, w), f) -> (show_written w, f) | _ -> ("-", f1) in
+          let r1 = handle_peer_message ascii_only (env (int_of_string secs) d1) empty_fs m in
+          let r2 = handle_peer_message ascii_only (env (int_of_string secs + 1000) d2) (snd r1) m in
           Printf.printf "handled1=%s r1=%s file1=%s handled2=%s r2=%s file2=%s\n"
-            (handled_str r1) w1 (show_file f1) (handled_str r2) w2 (show_file f2)
+            (handled_str r1) (written_of r1) (show_file (snd r1)) (handled_str r2) (written_of r2) (show_file (snd r2))
       | [ "g"; pre; draw; secs ] ->
-          let m = make_msg peer_iface get_id "c" 77 "3a312e39" "-" in
+          let m = get_id_msg () in
           let f0 = if pre = "none" then empty_fs else fs_write machine_id_path (list_of_hex pre) empty_fs in
-          let e1 = { e_now = n_of_int (int_of_string secs); e_rand = list_of_hex draw; e_write_ok = true } in
-          let r1 = handle_peer_message ascii_only e1 f0 m in
-          let w1, f1 = match r1 with Ok ((_, w), f) -> (show_written w, f) | _ -> ("-", f0) in
-          let r2 = handle_peer_message ascii_only e1 f1 m in
-          let w2, f2 = match r2 with Ok ((_, w), f) -> (show_written w, f) | _ -> ("-", f1) in
+          let r1 = handle_peer_message ascii_only (env (int_of_string secs) draw) f0 m in
+          let r2 = handle_peer_message ascii_only (env (int_of_string secs) draw) (snd r1) m in
           Printf.printf "pre=%s handled1=%s r1=%s file1=%s handled2=%s r2=%s file2=%s\n" pre
-            (handled_str r1) w1 (show_file f1) (handled_str r2) w2 (show_file f2)
+            (handled_str r1) (written_of r1) (show_file (snd r1)) (handled_str r2) (written_of r2) (show_file (snd r2))
+      | [ "n"; d1; d2; d3; secs ] ->
+          (* no space left: the temporary file is created but the write fails; then space is freed *)
+          let m = get_id_msg () in
+          let r1 = handle_peer_message ascii_only (env ~write:(WriteFailed (Some [])) (int_of_string secs) d1) empty_fs m in
+          let r2 = handle_peer_message ascii_only (env (int_of_string secs) d2) (snd r1) m in
+          let r3 = handle_peer_message ascii_only (env (int_of_string secs) d3) (snd r2) m in
+          Printf.printf "handled1=%s r1=%s file1=%s handled2=%s r2=%s handled3=%s r3=%s file3=%s\n"
+            (handled_str r1) (written_of r1) (show_file (snd r1)) (handled_str r2) (written_of r2)
+            (handled_str r3) (written_of r3) (show_file (snd r3))
       | _ -> print_endline "?"
     done
   with End_of_file -> ()
